@@ -22,16 +22,23 @@ def build():
     out = {}
 
     async def go(kernel):
-        rig = Rig([dict(pos=1001, **{"in": 8, "out": 6}, fmmu=True, rw=True)], ec_class=FastEtherCat)
+        # TWO motors on two terminals in one fast group: the first one is a bystander with parameters of its own (a decoy), the
+        # second one is the motor under test - whatever one instance of the class knows must not reach the other
+        rig = Rig([dict(pos=1000, **{"in": 8, "out": 6}, fmmu=True, rw=True), dict(pos=1001, **{"in": 8, "out": 6}, fmmu=True, rw=True)], ec_class=FastEtherCat)
         rig.connect()
-        m = EL7041(rig.ec)
-        m.__dict__.update(rig.terms[0].__dict__)
-        m.pdos = {(0x7010, 0x21): (SyncManager.OUT, 2, "h"), (0x7010, 1): (SyncManager.OUT, 0, 0),
-                  (0x6010, 0xc): (SyncManager.IN, 1, 3), (0x6010, 0xd): (SyncManager.IN, 1, 4), (0x6000, 0x11): (SyncManager.IN, 2, "i")}
-        m.position_offset = {None: 0}
-        d = Motor()
-        d.velocity, d.encoder, d.low_switch, d.high_switch, d.enable = m.velocity, m.stepcounter, m.low_switch, m.high_switch, m.enable
-        sg = FastSyncGroup(rig.ec, [d])
+        motors = []
+        for k in range(2):
+            m = EL7041(rig.ec)
+            m.__dict__.update(rig.terms[k].__dict__)
+            m.pdos = {(0x7010, 0x21): (SyncManager.OUT, 2, "h"), (0x7010, 1): (SyncManager.OUT, 0, 0),
+                      (0x6010, 0xc): (SyncManager.IN, 1, 3), (0x6010, 0xd): (SyncManager.IN, 1, 4), (0x6000, 0x11): (SyncManager.IN, 2, "i")}
+            m.position_offset = {None: 0}
+            d = Motor()
+            d.velocity, d.encoder, d.low_switch, d.high_switch, d.enable = m.velocity, m.stepcounter, m.low_switch, m.high_switch, m.enable
+            motors.append((m, d))
+        decoy = motors[0][1]
+        m, d = motors[1]
+        sg = FastSyncGroup(rig.ec, [decoy, d])
         sg.allocate()
         sg.assemble()
         fds = {fd: k for k, fd in enumerate(kernel.maps)}
@@ -46,6 +53,7 @@ def build():
         out.update(instrs=instrs, frame=bytes(14) + bytes(sg.packet.sterile(3, rig.ec.ethertype if hasattr(rig.ec, "ethertype") else 0x88a4)),
                    pos={"switches": base_in + 1, "encoder": base_in + 2, "velocity": base_out + 2, "enable": base_out},
                    vars={k: d.__dict__[k] for k in ("set_enable", "max_velocity", "max_acceleration", "target", "proportional")},
+                   decoy_vars={k: decoy.__dict__[k] for k in ("set_enable", "max_velocity", "max_acceleration", "target", "proportional")},
                    map_size=FastSyncGroup.properties.size, wkc_errors=sg.__dict__["wkc_errors"])
         await rig.shutdown()
     with sim_kernel.installed() as k:
@@ -120,6 +128,8 @@ class C26(Check):
             amap[b["wkc_errors"]] = 1          # output enabled (0 means: leave the frame alone)
             for name, key in (("set_enable", "set_enable"), ("max_velocity", "vmax"), ("max_acceleration", "acc"), ("target", "target"), ("proportional", "gain")):
                 amap[b["vars"][name]:b["vars"][name] + 4] = (c[key] % 2 ** 32).to_bytes(4, "little")
+            for name, val in (("set_enable", 1), ("max_velocity", 20000), ("max_acceleration", 7000), ("target", 123456), ("proportional", 9)):
+                amap[b["decoy_vars"][name]:b["decoy_vars"][name] + 4] = val.to_bytes(4, "little")
             c["_pkt"], c["_map"] = bytes(pkt), bytes(amap)
             terms.append(f"(exec_vars P {ebpf_exec.cbytes(pkt)} [{ebpf_exec.cbytes(amap)}] [] [])")
         pre = f"Definition P := {ebpf_exec.cprog(b['instrs'])}."
@@ -192,7 +202,8 @@ class C26(Check):
         return [isa_check.check(self.seed + 4, 40 if self.tier == "quick" else 300)]
 
     def rule(self):
-        return ("gain / target / acceleration limit over boundary values of [0, 2**32) (0, 1, 32767, 32768, 40000, 65535, 65536, 2**31, 2**32-1 ...), small and "
+        return ("the motor under test is the SECOND of two motors (two EL7041) in one fast group, the first one with fixed other parameters; " +
+                "gain / target / acceleration limit over boundary values of [0, 2**32) (0, 1, 32767, 32768, 40000, 65535, 65536, 2**31, 2**32-1 ...), small and "
                 "uniform values; position over boundary values of signed 32 bit; velocity limit in [0, 32767]; previous velocity in {-vmax, 0, vmax, random}; "
                 "switch bits with random neighbouring bits; 43% of the cases with small gains and a target near the position; 12% with a desired velocity "
                 "within the acceleration limit of +-2**63 (large gains times large distances)")
